@@ -177,6 +177,12 @@ def long_values(version):
         add('first line %d then nl' % k, 'a' * k + '\nb')
         add('last line %d' % k, 'b\n' + 'a' * k)
         add("quotes both, line %d" % k, "'\"" + 'a' * k)
+    # values longer than the parser's scan buffer (131200 units; it is doubled while a token of more than half its size is being
+    # scanned, and compacted otherwise): what cif_write emits for them must still read back as the same value
+    for total in (65000, 66000, 131000, 140000, 263000, 300000):
+        add('%d characters in lines of 70' % total, ('x' * 69 + '\n') * (total // 70) + 'end')
+        add('%d characters in one line' % total, 'y' * total)
+        add('%d characters, lines starting with a semicolon' % total, (';' + 'z' * 68 + '\n') * (total // 70) + 'end')
     return fam
 
 
@@ -258,6 +264,17 @@ def structures(version):
         L += ['pkt.create P0 0', 'pkt.set P0 %s %s' % (U('_p'), lit(V[k])), 'pkt.set P0 %s %s' % (U('_q'), lit(V['b'])), 'loop.addpkt L0 P0']
     L += ['itr.open L0 I0', 'itr.next I0', 'itr.next I0', 'pkt.create P1 0', 'pkt.set P1 %s %s' % (U('_q'), lit(V['m'])), 'itr.update I0 P1', 'itr.next I0', 'itr.remove I0', 'itr.close I0']
     S.append(('iterator update / remove', L, False))
+    # histories that end in a walk stopped by a handler (skip the element, skip its siblings, end the walk) at every callback
+    # in turn: a stopped walk is a read, so the CIF must be written afterwards like any other
+    L = ['cif.new C0', 'blk.create C0 %s H0' % U('b'), 'item.set H0 %s %s' % (U('_s'), lit(V['c'])), 'loop.create H0 - 2 %s %s L0' % (U('_p'), U('_q'))]
+    for k in keys[:3]:
+        L += ['pkt.create P0 0', 'pkt.set P0 %s %s' % (U('_p'), lit(V[k])), 'pkt.set P0 %s %s' % (U('_q'), lit(V['b'])), 'loop.addpkt L0 P0']
+    L += ['frm.create H0 %s H1' % U('f'), 'loop.create H1 - 1 %s L1' % U('_r'), 'pkt.create P1 0', 'pkt.set P1 %s %s' % (U('_r'), lit(V['n'])), 'loop.addpkt L1 P1', 'loop.addpkt L1 P1',
+          'blk.create C0 %s H2' % U('c'), 'item.set H2 %s %s' % (U('_t'), lit(V['b']))]
+    for resp in (-3, -2, -1):
+        S.append(('walks stopped with %d at every callback, then written' % resp, L + ['walk C0 prog=%d:%d log=0' % (k, resp) for k in range(1, 48)], False))
+    for k in range(1, 48):
+        S.append(('walk stopped with -3 at callback %d, then written' % k, L + ['walk C0 prog=%d:-3 log=0' % k], False))
     if version != 1:
         # nested frames (need max_frame_depth = -1 to re-parse), non-ASCII names and codes
         L = ['cif.new C0', 'blk.create C0 %s H0' % U('blöck\U00010400'), 'frm.create H0 %s H1' % U('outer'), 'frm.create H1 %s H2' % U('inneré'), 'frm.create H2 %s H3' % U('innermost'),
